@@ -278,6 +278,7 @@ CaseResult run_case(Tape &t, long)
     for (size_t i = 0; i < n; i++) srcs[i] = { c.src[i].null ? nullptr : kids[i].p, c.src[i].interests, 0x7fff };
     bool hang_before = w.hang;
     int64_t entry = w.now;
+    w.call_begins((timeout > 0 ? timeout : 0) + 100000);
     int r = reproc_poll(srcs.data(), n, timeout);
     bool hung = w.hang && !hang_before;
     std::string evs;
